@@ -145,8 +145,8 @@ func (a *panalyzer) str(inValue bool) string {
 					v = v*16 + h
 				}
 				a.i += 6
-				if v >= 0xD800 && v < 0xDC00 && !a.o.AllowInvalidUTF8 {
-					// need \uDC00-\uDFFF
+				if v >= 0xD800 && v < 0xDC00 {
+					// a high surrogate needs \uDC00-\uDFFF right behind it
 					ok := false
 					if a.i+6 <= len(a.b) && a.b[a.i] == '\\' && a.b[a.i+1] == 'u' {
 						v2 := 0
@@ -164,8 +164,8 @@ func (a *panalyzer) str(inValue bool) string {
 							a.i += 6
 							ok = true
 						}
-					} else if a.i+6 > len(a.b) {
-						// possibly truncated: viable if remaining is a prefix of \uD[C-F]xx
+					} else if a.i+6 > len(a.b) && !a.o.AllowInvalidUTF8 {
+						// possibly truncated: viable if the rest is a prefix of \uD[C-F]xx
 						rem := a.b[a.i:]
 						viable := true
 						for k, c := range rem {
@@ -183,12 +183,16 @@ func (a *panalyzer) str(inValue bool) string {
 						}
 					}
 					if !ok {
+						if !a.o.AllowInvalidUTF8 {
+							a.fail(es, start, inValue)
+						}
+						out = append(out, "\ufffd"...)
+					}
+				} else if v >= 0xDC00 && v < 0xE000 {
+					if !a.o.AllowInvalidUTF8 {
 						a.fail(es, start, inValue)
 					}
-				} else if v >= 0xDC00 && v < 0xE000 && !a.o.AllowInvalidUTF8 {
-					a.fail(es, start, inValue)
-				} else if v >= 0xD800 && v < 0xE000 {
-					out = append(out, "�"...)
+					out = append(out, "\ufffd"...)
 				} else {
 					out = utf8.AppendRune(out, rune(v))
 				}
